@@ -152,6 +152,10 @@ pub struct IoShape {
     pub frag: usize,
     /// capacity of the in-memory stream (0 = 16 KiB)
     pub bufsize: usize,
+    /// (not an IO shape, kept here so that the many case constructors stay unchanged) a Host header
+    /// supplied by the caller that names another host than the URI: the server name offered and the
+    /// certificate name checked must still be the URI host
+    pub host_header: Option<&'static str>,
 }
 
 impl Case {
@@ -210,6 +214,7 @@ pub fn run_case(c: &Case, fx: &Fx) -> Seen {
     if c.via_client {
         let seen_c = seen.clone();
         let uri = c.uri();
+        let host_header = c.io.host_header;
         let cfgc = (*cfg).clone();
         let built = std::panic::catch_unwind(std::panic::AssertUnwindSafe(|| {
             hyperdriver::Client::builder().with_auto_http().with_transport(OneShot(Arc::new(Mutex::new(Some(near))))).with_default_pool().without_timeout().with_tls(cfgc).build()
@@ -218,7 +223,11 @@ pub fn run_case(c: &Case, fx: &Fx) -> Seen {
             Err(p) => seen.lock().unwrap().panics.push(crate::det::panic_text(p)),
             Ok(mut client) => {
                 s.spawn("client", async move {
-                    let req = http::Request::get(uri).header("x-marker", "secret-marker-7f3a").body(hyperdriver::Body::empty()).unwrap();
+                    let mut rb = http::Request::get(uri).header("x-marker", "secret-marker-7f3a");
+                    if let Some(h) = host_header {
+                        rb = rb.header("host", h);
+                    }
+                    let req = rb.body(hyperdriver::Body::empty()).unwrap();
                     let r = client.request(req).await;
                     seen_c.lock().unwrap().client = Some(match r {
                         Ok(resp) => Ok(format!("stream; response {}", resp.status())),
@@ -230,7 +239,11 @@ pub fn run_case(c: &Case, fx: &Fx) -> Seen {
         return finish_case(c, s, seen, raw_in, sent, stall, far, fx);
     }
     let mut transport = TlsTransport::new(OneShot(Arc::new(Mutex::new(Some(near))))).with_tls(cfg);
-    let parts = http::Request::get(c.uri()).body(()).unwrap().into_parts().0;
+    let mut rb = http::Request::get(c.uri());
+    if let Some(h) = c.io.host_header {
+        rb = rb.header("host", h);
+    }
+    let parts = rb.body(()).unwrap().into_parts().0;
     let seen_c = seen.clone();
     let sent_c = sent.clone();
     let built = std::panic::catch_unwind(std::panic::AssertUnwindSafe(|| transport.call(parts)));
@@ -485,13 +498,30 @@ pub fn cases(thorough: bool, flight_len: usize, flight_len_ip: usize) -> Vec<Cas
             v.push(Case { scheme: "https", host: "example.com", port: None, peer: Peer::Tls { cert: "examplecom", alpn: ALPNS[3], truncate: Some(n), stall }, client_alpn: true, via_client: false, io: IoShape::default() });
         }
     }
+    // a caller-supplied Host header naming another host than the URI (virtual hosting, proxies): the
+    // TLS server name and the certificate check still follow the URI host
+    for (scheme, host, hdr, cert) in [
+        ("https", "example.com", "other.test", "othername"),
+        ("https", "example.com", "other.test", "examplecom"),
+        ("https", "other.test", "example.com", "examplecom"),
+        ("https", "other.test", "example.com:443", "othername"),
+        ("wss", "example.com", "other.test", "othername"),
+        ("wss", "[::1]", "example.com", "iphost"),
+        ("wss", "[::1]", "example.com", "examplecom"),
+        ("https", "127.0.0.1", "localhost", "iphost"),
+        ("http", "example.com", "other.test", "othername"),
+    ] {
+        for via_client in [false, true] {
+            v.push(Case { scheme, host, port: None, peer: Peer::Tls { cert, alpn: ALPNS[0], truncate: None, stall: false }, client_alpn: false, via_client, io: IoShape { host_header: Some(hdr), ..Default::default() } });
+        }
+    }
     // one byte of the server's flight altered (quick: lowest bit; thorough: also the highest bit)
     for n in 0..flight_len {
         for mask in [0x01u8, 0x80] {
             if mask == 0x80 && !thorough {
                 continue;
             }
-            v.push(Case { scheme: "https", host: "example.com", port: None, peer: Peer::Tls { cert: "examplecom", alpn: ALPNS[3], truncate: None, stall: false }, client_alpn: true, via_client: false, io: IoShape { corrupt: Some((n, mask)), frag: 0, bufsize: 0 } });
+            v.push(Case { scheme: "https", host: "example.com", port: None, peer: Peer::Tls { cert: "examplecom", alpn: ALPNS[3], truncate: None, stall: false }, client_alpn: true, via_client: false, io: IoShape { corrupt: Some((n, mask)), ..Default::default() } });
         }
     }
     // the handshake bytes fragmented: the peer's output in pieces of `frag` bytes with the client
@@ -503,14 +533,14 @@ pub fn cases(thorough: bool, flight_len: usize, flight_len_ip: usize) -> Vec<Cas
                     continue;
                 }
                 for via_client in [false, true] {
-                    v.push(Case { scheme, host, port: None, peer: Peer::Tls { cert, alpn: ALPNS[if via_client { 0 } else { 3 }], truncate: None, stall: false }, client_alpn: !via_client, via_client, io: IoShape { corrupt: None, frag, bufsize } });
+                    v.push(Case { scheme, host, port: None, peer: Peer::Tls { cert, alpn: ALPNS[if via_client { 0 } else { 3 }], truncate: None, stall: false }, client_alpn: !via_client, via_client, io: IoShape { frag, bufsize, ..Default::default() } });
                 }
             }
         }
     }
     // fragmented and truncated
     for n in (0..flight_len).step_by(if thorough { 1 } else { 5 }) {
-        v.push(Case { scheme: "https", host: "example.com", port: None, peer: Peer::Tls { cert: "examplecom", alpn: ALPNS[3], truncate: Some(n), stall: false }, client_alpn: true, via_client: false, io: IoShape { corrupt: None, frag: 3, bufsize: 32 } });
+        v.push(Case { scheme: "https", host: "example.com", port: None, peer: Peer::Tls { cert: "examplecom", alpn: ALPNS[3], truncate: Some(n), stall: false }, client_alpn: true, via_client: false, io: IoShape { frag: 3, bufsize: 32, ..Default::default() } });
     }
     for n in (0..flight_len_ip).step_by(if thorough { 7 } else { 41 }) {
         v.push(Case { scheme: "wss", host: "[::1]", port: Some(8443), peer: Peer::Tls { cert: "iphost", alpn: ALPNS[0], truncate: Some(n), stall: false }, client_alpn: false, via_client: false, io: IoShape::default() });
@@ -559,6 +589,7 @@ fn replay(path: &str, fx: &Fx) -> i32 {
                 corrupt: io.get("corrupt").and_then(|x| x.as_array()).and_then(|a| Some((a.first()?.as_u64()? as usize, a.get(1)?.as_u64()? as u8))),
                 frag: io.get("frag").and_then(|x| x.as_u64()).unwrap_or(0) as usize,
                 bufsize: io.get("bufsize").and_then(|x| x.as_u64()).unwrap_or(0) as usize,
+                host_header: io.get("host_header").and_then(|x| x.as_str()).map(leak),
             }
         },
     };
@@ -606,7 +637,7 @@ pub fn run(args: &Args) -> i32 {
     let threads = crate::evidence::n_threads();
     let results = crate::evidence::par_map(cs.len(), threads, |i| {
         let c = cs[i].clone();
-        let _g = crate::evidence::watchdog::enter(move || json!({"engine":"schedmc-c12","uri":c.uri(),"scheme":c.scheme,"host":c.host,"port":c.port,"peer":format!("{:?}", c.peer),"peer_spec":peer_json(&c.peer),"client_alpn":c.client_alpn,"via_client":c.via_client,"io":{"corrupt":c.io.corrupt.map(|(a,m)| vec![a as u64, m as u64]),"frag":c.io.frag,"bufsize":c.io.bufsize}}));
+        let _g = crate::evidence::watchdog::enter(move || json!({"engine":"schedmc-c12","uri":c.uri(),"scheme":c.scheme,"host":c.host,"port":c.port,"peer":format!("{:?}", c.peer),"peer_spec":peer_json(&c.peer),"client_alpn":c.client_alpn,"via_client":c.via_client,"io":{"corrupt":c.io.corrupt.map(|(a,m)| vec![a as u64, m as u64]),"frag":c.io.frag,"bufsize":c.io.bufsize,"host_header":c.io.host_header}}));
         let o = run_case(&cs[i], &fx);
         let mut v = check(&cs[i], &o);
         if i % 8 == 5 {
@@ -649,7 +680,7 @@ pub fn run(args: &Args) -> i32 {
             }
             let bare = c.host.rsplit('@').next().unwrap_or(c.host).trim_start_matches('[').trim_end_matches(']');
             let hk = if c.host.contains('@') { "with-userinfo" } else if c.host.starts_with('[') { "ipv6-literal" } else if bare.parse::<std::net::Ipv4Addr>().is_ok() { "ipv4" } else { "name" };
-            run.violation(format!("{sub} scheme={} host-kind={hk} peer={peer_class}", c.scheme), format!("{msg}; uri {} peer {:?}", c.uri(), c.peer), json!({"engine":"schedmc-c12","uri":c.uri(),"scheme":c.scheme,"host":c.host,"port":c.port,"peer":format!("{:?}", c.peer),"peer_spec":peer_json(&c.peer),"client_alpn":c.client_alpn,"via_client":c.via_client,"io":{"corrupt":c.io.corrupt.map(|(a,m)| vec![a as u64, m as u64]),"frag":c.io.frag,"bufsize":c.io.bufsize}}));
+            run.violation(format!("{sub} scheme={} host-kind={hk} peer={peer_class}", c.scheme), format!("{msg}; uri {} peer {:?}", c.uri(), c.peer), json!({"engine":"schedmc-c12","uri":c.uri(),"scheme":c.scheme,"host":c.host,"port":c.port,"peer":format!("{:?}", c.peer),"peer_spec":peer_json(&c.peer),"client_alpn":c.client_alpn,"via_client":c.via_client,"io":{"corrupt":c.io.corrupt.map(|(a,m)| vec![a as u64, m as u64]),"frag":c.io.frag,"bufsize":c.io.bufsize,"host_header":c.io.host_header}}));
         }
     }
     run.cov("evaluations", cs.len() as u64);
